@@ -6,44 +6,14 @@ import z3
 from .values import *  # noqa
 from .engine import (Unsupported, PyRaise, raise_py, FuncVal, BoundMethod, EnvFunc,
                      EnvModule, EnvClass, ClassInfo, SeqV, IterV)
-from .envfs import FsMixin
 from .env import (Env, ExcClass, SetV, zbool, is_int, is_str, is_bytes, int_term,
                   term_of, INT64_MIN, INT64_MAX)
 
-_I, _B = z3.IntSort(), z3.BoolSort()
-
-# uninterpreted library functions ------------------------------------------------
-adler32 = z3.Function('zlib_adler32', BYTES, _I)
-utf8 = z3.Function('utf8_encode', STR, BYTES)
-utf8dec = z3.Function('utf8_decode', BYTES, STR)
-utf8_valid = z3.Function('utf8_valid', BYTES, _B)
-has_surrogate = z3.Function('has_lone_surrogate', STR, _B)
-pack_d = z3.Function('struct_pack_d', F64, BYTES)
-unpack_d = z3.Function('struct_unpack_d', BYTES, F64)
-dumps = z3.Function('pickle_dumps', PyObj, _I, BYTES)
-loads = z3.Function('pickle_loads', BYTES, PyObj)
-optimize = z3.Function('pickletools_optimize', BYTES, BYTES)
-picklable = z3.Function('picklable', PyObj, _B)
-valid_pickle = z3.Function('valid_pickle', BYTES, _B)
-json_dumps = z3.Function('json_dumps', PyObj, STR)
-json_loads = z3.Function('json_loads', STR, PyObj)
-json_able = z3.Function('json_serializable', PyObj, _B)
-json_rt = z3.Function('json_roundtrips', PyObj, _B)
-json_valid = z3.Function('json_valid', STR, _B)
-compress = z3.Function('zlib_compress', BYTES, _I, BYTES)
-decompress = z3.Function('zlib_decompress', BYTES, BYTES)
-zlib_valid = z3.Function('zlib_valid', BYTES, _B)
-hexenc = z3.Function('hex_encode', BYTES, BYTES)
-univ_nl = z3.Function('universal_newlines', STR, STR)
-enc_other = z3.Function('encode_other_codec', _I, STR, BYTES)
-dec_other = z3.Function('decode_other_codec', _I, BYTES, STR)
-nl_other = z3.Function('newline_other', _I, STR, STR)
+from .libfns import *  # noqa
+from . import libfns
 
 
-def A(it, fact, name):
-    """Assume an instance of a library fact and record the contract name."""
-    it.env.use(name)
-    it.st.assume(fact)
+from .envfs import FsMixin  # noqa: E402
 
 
 class Lib(FsMixin):
@@ -286,9 +256,12 @@ class Lib(FsMixin):
         b = self.bytes_arg(a[0])
         r = hexenc(b)
         A(it, z3.And(utf8_valid(r), z3.Length(r) == 2 * z3.Length(b),
-                     z3.Length(utf8dec(r)) == 2 * z3.Length(b),
-                     z3.Not(z3.Contains(utf8dec(r), z3.StringVal('/')))),
+                     z3.Length(utf8dec(r)) == 2 * z3.Length(b)),
           "codecs.encode(b,'hex'): 2*len(b) ASCII hex digits")
+        kl = it.st.ghost.get('known_len', {}).get(b.get_id())
+        if kl is not None:
+            it.st.ghost['known_len'][r.get_id()] = 2 * kl
+            it.st.ghost['known_len'][utf8dec(r).get_id()] = 2 * kl
         return SV('bytes', r)
 
     # ------------------------------------------------------------------ functools / contextlib
@@ -310,7 +283,12 @@ class Lib(FsMixin):
 
     def ft_partial(self, it, a, k):
         f, pre = a[0], a[1:]
-        return EnvFunc('partial', lambda it2, a2, k2: it2.call(f, list(pre) + list(a2), dict(k, **k2)))
+        e = EnvFunc('partial', lambda it2, a2, k2: it2.call(f, list(pre) + list(a2), dict(k, **k2)))
+        # partial(stream.read, n) with n > 0: remember the stream for iter(callable, b'')
+        src = getattr(f, 'stream_source', None)
+        if src is not None and len(pre) == 1 and isinstance(pre[0], int) and pre[0] > 0 and not k:
+            e.stream_source = src
+        return e
 
     def ft_wraps(self, it, a, k):
         e = EnvFunc('wraps_inner', None)
